@@ -6,7 +6,8 @@ Import ListNotations.
 
 (** an answer of the implementation: rows as (position, coordinates); coordinates are [None] when
     the harness has already verified them to be bit-identical to that row of the batch *)
-Inductive outcome := ROk (rows : list N) (coords : list (list float)) | RErr | RPanic.
+Inductive outcome := ROk (rows : list N) (coords : list (list float)) | RErr | RPanic
+  | RSkip (* nothing to judge: the k-d tree refused a non-contiguous batch / query with its documented panic *).
 (* [coords = []] : verified by the harness; otherwise one coordinate vector per returned row *)
 
 (* [ko_raw] / [ro_raw]: the raw answer of the external crate - kdtree::KdTree::nearest(q, k, rdistance) /
@@ -30,7 +31,8 @@ Inductive dtree :=
 | DLeaf (c : list float) (r : float) (rows : list N)
 | DBranch (c : list float) (r : float) (l rt : dtree).
 
-Inductive bstat := BOk | BZeroDim | BEmptyLeaf | BPanic.
+Inductive bstat := BOk | BZeroDim | BEmptyLeaf | BPanic
+  | BSkip (* k-d tree only: documented panic on a batch whose rows are not contiguous *).
 
 Record case := CS {
   c_id : N;
@@ -99,10 +101,10 @@ Definition is_panic (x : outcome) : bool := match x with RPanic => true | _ => f
 
 (* status of one answer for a well-formed query: Ok expected *)
 Definition status_valid (x : outcome) : N :=
-  match x with ROk _ _ => 0 | RErr => 64 | RPanic => 128 end%N.
+  match x with ROk _ _ => 0 | RErr => 64 | RPanic => 128 | RSkip => 0 end%N.
 (* ... and for a malformed one: an error expected *)
 Definition status_malformed (x : outcome) : N :=
-  match x with ROk _ _ => 64 | RErr => 0 | RPanic => 192 end%N.
+  match x with ROk _ _ => 64 | RErr => 0 | RPanic => 192 | RSkip => 0 end%N.
 
 (* the float-level invariant of the search (C07/FloatSearch.v proves it for L2 in the standard rounding
    model): at every node of the tree the computed bound is at or below the computed reduced distance
@@ -242,6 +244,7 @@ Fixpoint leaves_within (leaf : nat) (d : dtree) : bool :=
 Definition bstat_code (expected : option build_error) (s : bstat) : N * N :=
   (* (corr, oracle) *)
   match expected, s with
+  | _, BSkip => (0, 0)
   | None, BOk => (0, 0)
   | None, BPanic => (128, 128)
   | None, _ => (128, 64)
